@@ -183,6 +183,26 @@ func runC16(ctx *Ctx) {
 			}
 		}
 	}
+	// the same on ONE context whose algorithms are changed between calls (the only way to run a created UE with other
+	// algorithms), earlier results kept and looked at again
+	{
+		ue := tglib.NewRanUeContext("imsi-001010000000001", 1, 0, 2)
+		var capHeld held
+		for round := 0; round < 2; round++ {
+			for enc := uint8(0); enc < 4; enc++ {
+				for in := uint8(0); in < 4; in++ {
+					ue.CipheringAlg, ue.IntegrityAlg = enc, in
+					capab := ue.GetUESecurityCapability()
+					cs := fmt.Sprintf("one context, algorithms set to enc=%d int=%d (round %d), then GetUESecurityCapability", enc, in, round)
+					l.Case(cs, true, fmt.Sprintf("%x", capab.Buffer))
+					if len(capab.Buffer) != 2 || capab.Buffer[0] != 0x80>>enc || capab.Buffer[1] != 0x80>>in {
+						r.Violate("capability/bits-after-algorithm-change", cs, fmt.Sprintf("%x", capab.Buffer), nil)
+					}
+					capHeld.next(r, "capability/result-changed-by-a-later-call", capab.Buffer, cs)
+				}
+			}
+		}
+	}
 	l.Merge()
 	r.Sample("capability enc=1 int=2 -> octets 40 20")
 }
